@@ -216,7 +216,29 @@ def rand_tier(rng, name="d", hi=5.0, nmax=7, pkind=0.25, labels=None, src=None, 
         k = rng.choice([0.5, 2.0, 2.5, 7.0])
         ents = [tuple(x - k for x in e[:-1]) + (e[-1],) for e in ents]
         lo, top = lo - k, top - k
-    return kind, ents, lo, top, make_tier(kind, name, ents, lo, top)
+    t = make_tier(kind, name, ents, lo, top)
+    if rng.random() < 0.08 and top - lo > 0.5:
+        # the tier has a past: since it was built, entries were added to it and removed from it in place (inside its span).  The
+        # operation under test works on the tier as it is now - whatever the constructor computed once may be out of date
+        try:
+            with core.paused():
+                for _e in range(rng.randrange(1, 4)):
+                    cur = list(t.entries)
+                    if cur and rng.random() < 0.4:
+                        t.deleteEntry(rng.choice(cur))
+                    elif kind == "P":
+                        t.insertEntry((round(rng.uniform(lo, top), 3), "added"), "replace", "silence")
+                    else:
+                        x0 = round(rng.uniform(lo, top - 0.3), 3)
+                        t.insertEntry((x0, round(x0 + rng.choice([0.05, 0.25]), 3), "added"), "replace", "silence")
+            if (t.minTimestamp, t.maxTimestamp) == (lo, top):
+                ents = [tuple(e) for e in t.entries]
+                REC.cls("tier-edited-in-place-since-it-was-built")
+            else:
+                t = make_tier(kind, name, ents, lo, top)
+        except Exception:
+            t = make_tier(kind, name, ents, lo, top)
+    return kind, ents, lo, top, t
 
 
 def rand_textgrid(rng, hi=5.0, ntiers=(1, 5), nmax=5, labels=None, variants=True):
